@@ -66,6 +66,9 @@ def _comp_shape(helper):
     return pred
 
 
+CONFORMANCE = {"_flatten_list": [{"subject": [1, [2, [3, 4]], [], [[5]]]}, {"subject": []}, {"subject": [1, 2, 3]}], "_only_numeric_list.filter": [{"i": True, "with_string_digits": False}, {"i": {"$e": 1}, "with_string_digits": False}, {"i": {"$f": "2.5"}, "with_string_digits": False}, {"i": "12", "with_string_digits": True}, {"i": "1.2", "with_string_digits": True}], "_count_blank.filter": [{"elem": None}, {"elem": ""}, {"elem": {"$e": 1}}, {"elem": 0}, {"elem": False}]}
+
+
 def run(ctx):
     res = PropResult('C11')
     K.k1_block(res, ctx, MOD, K1, 'C11.')
@@ -77,6 +80,7 @@ def run(ctx):
     schema.run_table(res, 'C11', TABLE)
     K.canary_contract(res, MOD, '_only_numeric_list.filter', 'numeric_only',
                       'implies(not Bv(with_string_digits), truthy(result) == (is_numcell(i) or is_bool(i)))')
+    K.conformance(res, 'contracts.rt', CONFORMANCE)
     K.monitor_if_present(res, ctx, 'mon_c11')
     res.trusted_base += ['CPython semantics of list comprehension (filter in order), sum / min / max / any / all / len',
                          'L-SUBST', 'A-ACYCLIC: lists are finite trees']
